@@ -253,6 +253,13 @@ class XlsObject:
             f"<{type(self).__name__}"
             f"({self._src_ws_name} {self._anchor_cell_coord}) {self.logic_id}>")
 
+    @staticmethod
+    def _coord_sort_key(coord):
+        # "B2" < "Z2" < "AA2"; "A2" < "A10" (plain string order gets it wrong)
+        column = coord.rstrip('0123456789')
+        row = coord[len(column):]
+        return (len(column), column, int(row) if row else 0)
+
     def get_attr_origin(
             self, attr_name, range_key=None, *, incl_ws=False, strict=True) -> str:
         """Return coordinate of the cell(s) corresponding to attribute.
@@ -296,7 +303,7 @@ class XlsObject:
         assert isinstance(origins, dict)
         if range_key is None:
             # return description of all the source cells
-            cells_coords = sorted(origins.values())
+            cells_coords = sorted(origins.values(), key=self._coord_sort_key)
             if len(cells_coords) == 0:
                 cells_range_descr = "<skipped column>"
             elif len(cells_coords) == 1:
